@@ -132,6 +132,12 @@ func body(s *simrt.Sim, tier string) {
 			sb.subInvoke = s.Stamp()
 			s.Logf("subscribe s%d mode %d", sb.id, sb.mode)
 			b.Subscribe(sb.ctx, sb.ch)
+			if closeReturn.Load() != 0 {
+				// Close had already returned when this Subscribe came back: it must have been dropped
+				if l := s.Live(""); len(l) > 0 {
+					s.Fail("subscriber-registered-after-close", fmt.Sprintf("subscriber %d was registered although Close had already returned: %v", sb.id, l))
+				}
+			}
 			s.Yield("sub.ret")
 			sb.subReturn = s.Stamp()
 			if sb.mode == 2 {
@@ -218,6 +224,10 @@ func body(s *simrt.Sim, tier string) {
 		}
 		s.Logf("close")
 		b.Close()
+		// at the instant any Close returns, every forwarder and the processor loop have exited
+		if l := s.Live(""); len(l) > 0 {
+			s.Fail("goroutines-alive-after-close", fmt.Sprintf("Close returned while batcher goroutines were still alive: %v", l))
+		}
 		closeReturn.CompareAndSwap(0, s.Stamp())
 		s.Yield("close.ret")
 	}
